@@ -141,7 +141,7 @@ fn path_bytes(n_ext: usize) -> usize {
 fn model<S: Lin>(ck: &Ck<S>, len: usize, rows: usize, n_ext_of: &dyn Fn(usize) -> usize) -> Option<f64> {
     let cols = (len + rows - 1) / rows;
     let n_ext = n_ext_of(cols);
-    let t = lincode::expected_t::<Fr>(S::sec_param(ck), S::distance(ck), n_ext)?;
+    let t = lincode::expected_t::<Fr>(S::sec_param(ck), S::dist(ck), n_ext)?;
     let wf = if S::wf(ck) { 2 } else { 1 };
     Some((t * (LEN + rows * fr() + path_bytes(n_ext)) + wf * (LEN + cols * fr())) as f64)
 }
@@ -179,7 +179,7 @@ pub fn check_lin<S: Lin>(c: &Scn, ctx: &mut CaseCtx, n_ext_of: &dyn Fn(&Ck<S>, u
     while r <= len.next_power_of_two() {
         let cols_r = (len + r - 1) / r;
         let n_ext_r = n_ext_of(ck, cols_r);
-        let t_r = lincode::expected_t::<Fr>(S::sec_param(ck), S::distance(ck), n_ext_r);
+        let t_r = lincode::expected_t::<Fr>(S::sec_param(ck), S::dist(ck), n_ext_r);
         let succinct_r = t_r.map(|x| x < n_ext_r).unwrap_or(false);
         if !actual_succinct || succinct_r {
             if let Some(m) = model::<S>(ck, len, r, &|cols| n_ext_of(ck, cols)) {
@@ -215,9 +215,7 @@ fn check_mligero(c: &Scn, ctx: &mut CaseCtx) -> Result<(), Failure> {
     check_lin::<MLigero>(c, ctx, &|ck, cols| (cols * lig_rho(ck)).next_power_of_two())
 }
 fn lig_rho(ck: &LigeroParams) -> usize {
-    use ark_poly_commit::linear_codes::LinCodeParametersInfo;
-    // distance = (rho_inv - 1, rho_inv)
-    ck.distance().1
+    lincode::ligero_ref_distance(ck).map(|d| d.1).unwrap_or(2)
 }
 fn check_brakedown(c: &Scn, ctx: &mut CaseCtx) -> Result<(), Failure> {
     // codeword length of the expander code for a message of `cols` words: rate 1000/1521 (rounded up)
